@@ -33,6 +33,7 @@ def observe_marker(srv, uri, timeout=30.0):
 
 def notif_msg(n, uris, version):
     k, u = n["k"], uris[n["u"]]
+    version = n.get("v", version)
     if k == "o":
         return {"jsonrpc": "2.0", "method": "textDocument/didOpen", "params": {"textDocument": {
             "uri": u, "languageId": "lua", "version": version, "text": n["text"]}}}
@@ -71,11 +72,61 @@ def expected_last_writer(ns, ndisk, nuris):
     return exp
 
 
+def assign_versions(rng, ns, mode):
+    """LSP document versions. `session`: what editors send — 1 at every didOpen (also after close + reopen), +1 (sometimes
+    a gap) per didChange; `low-reopen`: like `session` but a reopen starts below the previous session's last version at an
+    arbitrary number; `equal`: every notification carries the same version; `global`: one counter over the burst;
+    `malformed`: arbitrary numbers that also go down within an open session."""
+    cur = {}
+    g = 0
+    for x in ns:
+        if x["k"] not in ("o", "c"):
+            continue
+        u = x["u"]
+        g += 1
+        if mode == "session":
+            cur[u] = 1 if x["k"] == "o" else cur.get(u, 0) + rng.choice([1, 1, 1, 2, 5])
+        elif mode == "low-reopen":
+            cur[u] = rng.randrange(0, 3) if x["k"] == "o" else cur.get(u, 0) + 1
+        elif mode == "equal":
+            cur[u] = 7
+        elif mode == "global":
+            cur[u] = g
+        else:
+            cur[u] = rng.randrange(-3, 12)
+        x["v"] = cur[u]
+    return ns
+
+
+VERSION_MODES = ["session", "session", "session", "low-reopen", "equal", "global", "malformed"]
+
+
+def gen_sessions_burst(rng, nuris):
+    """open → changes → close → reopen → changes for one or two documents (on disk and editor-only), interleaved"""
+    docs = rng.sample(range(nuris), rng.choice([1, 2, 2]))
+    streams = []
+    for u in docs:
+        st = [{"k": "o", "u": u}] + [{"k": "c", "u": u} for _ in range(rng.randrange(1, 5))] + [{"k": "x", "u": u}]
+        st += [{"k": "o", "u": u}] + [{"k": "c", "u": u} for _ in range(rng.randrange(0, 3))]
+        if rng.random() < 0.25:
+            st += [{"k": "x", "u": u}]
+            if rng.random() < 0.5:
+                st += [{"k": "o", "u": u}, {"k": "c", "u": u}]
+        streams.append(st)
+    ns = []
+    while any(streams):
+        st = rng.choice([x for x in streams if x])
+        ns.append(st.pop(0))
+    return ns
+
+
 def gen_burst(rng, nuris, counter, long=False):
     n = rng.randrange(2, 12 if long else 8)
     ns = []
     shape = rng.random()
-    if shape < 0.3:   # the canonical race: open immediately followed by changes
+    if shape < 0.35:
+        ns = gen_sessions_burst(rng, nuris)
+    elif shape < 0.55:   # the canonical race: open immediately followed by changes
         u = rng.randrange(nuris)
         ns.append({"k": "o", "u": u})
         for _ in range(rng.randrange(1, 4)):
@@ -91,6 +142,10 @@ def gen_burst(rng, nuris, counter, long=False):
         if x["k"] in ("o", "c"):
             counter[0] += 1
             x["t"] = counter[0]
+    mode = rng.choice(VERSION_MODES)
+    assign_versions(rng, ns, mode)
+    for x in ns:
+        x["vmode"] = mode
     return ns
 
 
@@ -144,7 +199,15 @@ def c27_session(rep, seed, sched_seed, bursts, long=False):
             rep.mismatch({"what": "driver error", "out": out, "input": desc})
             continue
         kinds = "".join(x["k"] for x in ns)
-        rep.count("burst_len_%d" % len(ns))
+        rep.count("burst_len_%d" % min(len(ns), 12))
+        rep.count("versions_" + (ns[0].get("vmode", "none") if ns else "none"))
+        for u in range(len(exp)):
+            ku = "".join(x["k"] for x in ns if x["u"] == u)
+            if "xo" in ku:
+                rep.count("close_then_reopen")
+                vs = [x.get("v") for x in ns if x["u"] == u and "v" in x]
+                if any(b <= a for a, b in zip(vs, vs[1:])):
+                    rep.count("reopen_with_lower_or_equal_version")
         if "oc" in kinds:
             rep.count("open_then_change")
         if "x" in kinds:
@@ -158,8 +221,9 @@ def c27_session(rep, seed, sched_seed, bursts, long=False):
                 cls = "open-then-change" if any(a["k"] == "o" and bb["k"] == "c" and a["u"] == bb["u"] == u for a, bb in zip(ns, ns[1:])) else "stale-document"
                 rep.oracle_failure({"class": cls, "what": f"uri {u}: analysed with {obs[u]} after the burst {enc_notifs(ns)}; last notification in message order gives {exp[u]}",
                                     "input": desc})
-        rep.sample({"burst": enc_notifs(ns), "observed": {str(k): str(v) for k, v in obs.items()}})
-        rep.d["_distinct"].add(enc_notifs([dict(x, t=0) for x in ns]))
+        rep.sample({"burst": enc_notifs(ns), "versions": [x.get("v") for x in ns if "v" in x], "version_mode": ns[0].get("vmode") if ns else None,
+                    "observed": {str(k): str(v) for k, v in obs.items()}})
+        rep.d["_distinct"].add(enc_notifs([dict(x, t=0) for x in ns]) + "|" + (ns[0].get("vmode", "") if ns else ""))
 
 
 def c27_model_search(rep, thorough):
@@ -196,8 +260,9 @@ def c27_model_search(rep, thorough):
 
 def run_c27(a, rep):
     thorough = a["tier"] == "thorough"
-    rep.d["rule"] = ("a case = one notification burst (2–11 didOpen/didChange/didClose/didSave over 2 on-disk and 2 not-on-disk "
-                     "documents) sent back to back to the real server, analysed text of every document observed afterwards via "
+    rep.d["rule"] = ("a case = one notification burst (2–25 didOpen/didChange/didClose/didSave over 2 on-disk and 2 not-on-disk "
+                     "documents, incl. open→changes→close→reopen→changes streams of one or two interleaved documents; LSP versions as "
+                     "editors send them (restart at 1 on reopen), low/equal/global/malformed) sent back to back to the real server, analysed text of every document observed afterwards via "
                      "documentSymbol; or one notification list whose schedules are all explored in the model. distinct non-trivial "
                      "= distinct burst shapes (kinds+uris) with at least two notifications + explored lists")
     rep.d["_distinct"] = set()
